@@ -338,6 +338,15 @@ def referential_violations(state: dict, blob_dir) -> list[tuple[str, str]]:
                 rel = f"{st['directory']}/{blobs[m['blob']]['filename']}"
                 if rel not in files:
                     out.append(("mediafile-without-file", f"media_file {m['pk']} ({m['name']}): no file {rel}"))
+                else:
+                    # the blob row is the store's description of the bytes: size and SHA-1 recorded with the upload
+                    b = blobs[m["blob"]]
+                    size, sha = files[rel]
+                    if (b.get("size") is not None and b["size"] != size) or \
+                            (b.get("sha1_hash") and not str(b["sha1_hash"]).lower().startswith(sha)):
+                        out.append(("blob-describes-other-bytes",
+                                    f"media_file {m['pk']} ({m['name']}): blob row says {b.get('size')} bytes, sha1 "
+                                    f"{str(b.get('sha1_hash'))[:12]}; the stored file {rel} has {size} bytes, sha1 {sha}"))
     for link in table_dicts(state, "mediafile_keys"):
         vals = list(link.values())
         if link.get("media_pk", vals[0]) not in mfs and link.get("media_file_pk", vals[0]) not in mfs:
